@@ -63,6 +63,22 @@ ty!(Qmixed { ok: String, bad: Vec<u8> });
 #[derive(Deserialize, Serialize, JsonSchema, Debug, Clone)]
 pub struct Wrapped(pub UnitEnum);
 ty!(Qwrapped { q: Option<Wrapped> });
+/// schema: oneOf [ string enum, object with an array ] — not a scalar
+#[derive(Deserialize, Serialize, JsonSchema, Debug, Clone)]
+pub enum MixedEnum {
+    Everything,
+    Names(Vec<String>),
+}
+ty!(Qmixedenum { q: MixedEnum });
+/// schema: oneOf of string enums only (doc comments split the variants) — scalar
+#[derive(Deserialize, Serialize, JsonSchema, Debug, Clone)]
+pub enum DocEnum {
+    /// first
+    One,
+    /// second
+    Two,
+}
+ty!(Qdocenum { q: DocEnum });
 
 /// (key, fields: (name, scalar?))
 pub fn path_corpus() -> Vec<(&'static str, Vec<(&'static str, bool)>)> {
@@ -89,6 +105,8 @@ pub fn query_corpus() -> Vec<(&'static str, Vec<(&'static str, bool)>)> {
         ("qnested", vec![("q", false)]),
         ("qmixed", vec![("ok", true), ("bad", false)]),
         ("qwrapped", vec![("q", true)]),
+        ("qmixedenum", vec![("q", false)]),
+        ("qdocenum", vec![("q", true)]),
     ]
 }
 
@@ -156,6 +174,8 @@ fn make(case: &RegCase) -> Option<ApiEndpoint<C>> {
                 "qnested" => ApiEndpoint::new(op, h_pq::<$p, Qnested>, m, ct, &path, v),
                 "qmixed" => ApiEndpoint::new(op, h_pq::<$p, Qmixed>, m, ct, &path, v),
                 "qwrapped" => ApiEndpoint::new(op, h_pq::<$p, Qwrapped>, m, ct, &path, v),
+                "qmixedenum" => ApiEndpoint::new(op, h_pq::<$p, Qmixedenum>, m, ct, &path, v),
+                "qdocenum" => ApiEndpoint::new(op, h_pq::<$p, Qdocenum>, m, ct, &path, v),
                 _ => return None,
             }
         };
@@ -174,6 +194,8 @@ fn make(case: &RegCase) -> Option<ApiEndpoint<C>> {
             "qnested" => ApiEndpoint::new(op, h_q::<Qnested>, m, ct, &path, v),
             "qmixed" => ApiEndpoint::new(op, h_q::<Qmixed>, m, ct, &path, v),
             "qwrapped" => ApiEndpoint::new(op, h_q::<Qwrapped>, m, ct, &path, v),
+            "qmixedenum" => ApiEndpoint::new(op, h_q::<Qmixedenum>, m, ct, &path, v),
+            "qdocenum" => ApiEndpoint::new(op, h_q::<Qdocenum>, m, ct, &path, v),
             _ => return None,
         },
         "x" => with_q!(Px),
